@@ -51,7 +51,7 @@ TRUSTED = [
     "worker threads (the non-atomic `done += 1` read-modify-write in gather_futures). The real 1-/2-worker pool stage exercises real threads (decisive for deadlocks, smoke for races).",
 ]
 
-CONFIGS = ("blocking", "generic-blocking", "asyncio", "threadpool")
+CONFIGS = ("blocking", "generic-blocking", "asyncio", "threadpool") + tuple(W.SUBCLASS_CONFIGS) + ("generic-blocking/SubBlocking",)
 
 
 def dumps(x, **kw):
@@ -140,6 +140,9 @@ class Checker:
         yield "blocking", None, W.run_blocking(case)
         yield "generic-blocking", None, W.run_blocking(case, generic=True)
         ntasks = W.count_tasks(case)
+        if self.subclasses(case) and configs == ("asyncio", "threadpool"):
+            yield "generic-blocking/SubBlocking", None, W.run_blocking(case, generic=True, subclass=True)
+            configs = configs + W.SUBCLASS_CONFIGS
         for config in configs:
             runner = W.RUNNERS[config]
             if ntasks <= self.max_tasks_all:
@@ -232,7 +235,7 @@ class Checker:
             # an `async def` method starts its body only when the loop schedules it: call order differs from the callback model
             ctx.stat("model-comparison-skipped(async-def method)")
             return
-        if config == "asyncio" and "ready" in W.features(case):
+        if config.startswith("asyncio") and "ready" in W.features(case):
             # an already finished awaitable is only looked at when the loop next runs: the call order (and with it the
             # queue the schedule indexes) legitimately differs from the callback model; the direct oracle still applies
             ctx.stat("model-comparison-skipped(asyncio+ready)")
@@ -288,6 +291,12 @@ class Checker:
             return case
 
     # -- one case, fully ----------------------------------------------------
+    def subclasses(self, case):
+        """user-runtime (subclass) configurations: every mutation in C09, every third operation in C08"""
+        if self.prop == "C09":
+            return case["kind"] == "mutation"
+        return sum(map(ord, dumps(case, sort_keys=True))) % 3 == 0
+
     def enough(self):
         """stop generating once a few distinct NEW failures are in hand (keeps a broken tree's run short)"""
         import common
@@ -1119,6 +1128,92 @@ def probe_resolver_raises_execution_error(ctx):
             ctx.fail("c08:resolver-raises-ExecutionError:%s" % cfg,
                      "a resolver raising ExecutionError: %s gives %s, BlockingExecutor gives %s" % (cfg, got, ref),
                      {"probe": "resolver-raises-ExecutionError", "config": cfg, "blocking": ref, "got": got})
+
+
+# ---------------------------------------------------------------------------
+# abandoned resolvers under graphql()'s default AsyncIORuntime (thread off-loading on)
+
+def abandoned_cases():
+    I = {"t": "int"}
+    sub = {"t": "obj", "fields": [{"key": "a", "mode": "deferred", "ty": I}, {"key": "b", "mode": "deferred", "ty": I}]}
+    item = {"a": {"r": "ok", "v": 1}, "b": {"r": "ok", "v": 2}}
+    tail = [{"key": "m2", "mode": "deferred", "ty": I, "out": {"r": "ok", "v": 7}},
+            {"key": "m3", "mode": "deferred", "ty": I, "out": {"r": "ok", "v": 8}}]
+    out = []
+    for n_items in (1, 2):
+        out.append({"kind": "mutation", "fields": [
+            {"key": "m1", "mode": "deferred", "ty": {"t": "list", "of": sub},
+             "out": {"r": "ok", "v": {"lazy": [item] * n_items, "fail": True}}}] + tail})
+    out.append({"kind": "mutation", "fields": [
+        {"key": "m1", "mode": "deferred", "ty": {"t": "list", "of": dict(sub, abstract=True)},
+         "out": {"r": "ok", "v": [item, "cerr", item]}}] + tail})
+    out.append(dict(out[0], style="spread"))
+    return out
+
+
+def abandoned_stage(ctx, prop):
+    """
+    `py_gql.graphql()` = a DEFAULT `AsyncIORuntime()`: plain `def` resolvers are off-loaded to the loop's worker threads, lazily
+    (nothing runs before the executor awaits the wrapped call). A top-level list field whose completion raises ResolverError
+    after earlier items' sub-field resolvers were CALLED abandons those calls: they must not run during / after the next
+    top-level mutation field (on the unchanged tree they never run at all). Oracle: no `body`/`done` event of an earlier
+    top-level field's subtree after the `call` of a later top-level field; data / errors equal to BlockingExecutor's.
+    """
+    import asyncio
+    import threading
+    import time
+    import py_gql
+    lock = threading.Lock()
+
+    class W2(W.World):
+        def ev(self, kind, path):
+            with lock:
+                self.trace.append([kind, list(path)])
+
+        def resolve(self, info, explicit):
+            path = tuple(info.path)
+            self.ev("call", path)
+            if len(path) > 1:
+                time.sleep(0.03)            # a sub-field write that is still running when the next root field starts
+            return self.body(path)
+
+    n = 0
+    for case in abandoned_cases():
+        ref = W.run_blocking(case)
+        w = W2(case)
+        schema = W.build_schema(case, all_explicit=True)
+        loop = W.private_loop()
+        try:
+            res = loop.run_until_complete(asyncio.wait_for(py_gql.graphql(schema, W.document(case), context=w), 30))
+            loop.run_until_complete(asyncio.sleep(0.15))          # let stragglers finish and record their events
+            obs = W.obs_of_result(w, result=res, status="ok")
+        except asyncio.TimeoutError:
+            obs = W.obs_of_result(w, status="pending")
+        except Exception as err:  # noqa
+            obs = W.obs_of_result(w, exc=err, status="failed")
+        ctx.count()
+        n += 1
+        detail = {"stream": "abandoned", "case": case, "document": W.document(case), "config": "asyncio-graphql()"}
+        keys = [f["key"] for f in case["fields"]]
+        started = -1
+        late = None
+        with lock:
+            trace = list(w.trace)
+        for kind, path in trace:
+            top = keys.index(path[0])
+            if kind == "call" and len(path) == 1:
+                started = max(started, top)
+            elif top < started and late is None:
+                late = (kind, path, keys[started])
+        if late:
+            ctx.fail("%s:abandoned-resolver-ran:asyncio-graphql():%s" % (prop.lower(), "/".join(str(x) for x in late[1])),
+                     "the %s of resolver %r happened after top-level field %r had started, although its field had been abandoned "
+                     "(its list failed while being completed)" % (late[0], late[1], late[2]), dict(detail, trace=trace))
+            continue
+        bad = compare_to_reference(case, ref, obs, "asyncio-graphql()")
+        if bad:
+            ctx.fail("%s:%s:asyncio-graphql():abandoned-list-field" % (prop.lower(), bad[0]), bad[1], detail)
+    ctx.extra["abandoned_stage_runs"] = n
 
 
 def run(ctx):
